@@ -77,7 +77,7 @@ def strat_case(draw, tier):
     foff = -draw(st.sampled_from([1.0, 4.0, 0.5, 10.0, 0.39]))
     md = draw(st.integers(0, max(0, eff - 1)))
     return {"layout": lay, "start": start, "nsamps": nsamps, "gulp": gulp, "fch1": fch1, "foff": foff,
-            "md_target": md, "ichan": draw(st.integers(0, lay["nchans"] - 1))}
+            "md_target": md, "ichan": draw(st.integers(0, lay["nchans"] - 1)), "np_ints": draw(st.sampled_from([False, False, False, True]))}
 
 
 def f32eq(a, b):
@@ -133,9 +133,9 @@ def check(case, ctx):
     eff = N - start if nsamps is None else nsamps
     X = D[start : start + eff].astype(np.float64)
     Xf32 = D[start : start + eff].astype(np.float32)
-    kw = {"gulp": gulp, "start": start, "nsamps": nsamps, "quiet": True, "description": "v"}
+    kw = vs.as_np_ints({"gulp": gulp, "start": start, "nsamps": nsamps, "quiet": True, "description": "v"}, case.get("np_ints"))
     big = {"gulp": eff + 5, "start": start, "nsamps": nsamps, "quiet": True, "description": "v"}
-    labels = [f"{lay['nbits']}bit", f"files{len(lay['split'])}"]
+    labels = [f"{lay['nbits']}bit", f"files{len(lay['split'])}"] + (["numpy_int_arguments"] if case.get("np_ints") else [])
     multi = gulp < eff
     if start > 0 or nsamps is not None:
         labels.append("subrange")
@@ -286,10 +286,34 @@ def check_history(case, ctx):
     return Info(len(case["ops"]) >= 2, tuple(labels))
 
 
+def enum_long(tier):
+    """Streams of 1e6 samples and more (as real files are): per-channel sums, sample counts and file offsets leave the
+    ranges that the short generated streams stay in."""
+    base = [
+        {"nbits": 8, "nchans": 2, "split": [1_200_000, 800_003], "gulp": 65_536, "start": 0, "nsamps": None, "md": 37},
+        {"nbits": 8, "nchans": 1, "split": [3_000_000], "gulp": 1_000_000, "start": 123_457, "nsamps": 2_500_000, "md": 0},
+        {"nbits": 32, "nchans": 1, "split": [1_500_000], "gulp": 100_000, "start": 0, "nsamps": None, "md": 0},
+        {"nbits": 2, "nchans": 4, "split": [600_000, 600_001], "gulp": 250_000, "start": 5, "nsamps": None, "md": 1000},
+        {"nbits": 1, "nchans": 8, "split": [2_000_000], "gulp": 500_000, "start": 0, "nsamps": 1_999_999, "md": 3},
+    ]
+    if tier == "thorough":
+        base += [
+            {"nbits": 8, "nchans": 4, "split": [2_000_000, 1_000_000, 1_194_304], "gulp": 1 << 20, "start": 0, "nsamps": None, "md": 5000},
+            {"nbits": 8, "nchans": 1, "split": [4_194_304], "gulp": 4_194_304 + 5, "start": 0, "nsamps": None, "md": 0},
+            {"nbits": 4, "nchans": 2, "split": [5_000_001], "gulp": 99_991, "start": 1_000_000, "nsamps": 3_999_999, "md": 64},
+        ]
+    for i, b in enumerate(base):
+        lay = {"nbits": b["nbits"], "nchans": b["nchans"], "split": b["split"], "data_seed": 900 + i,
+               "data_kind": "small"}  # keeps float32 sums exact, the property's stated domain
+        yield {"layout": lay, "start": b["start"], "nsamps": b["nsamps"], "gulp": b["gulp"], "fch1": 1400.0, "foff": -10.0,
+               "md_target": b["md"], "ichan": b["nchans"] - 1}
+
+
 def subchecks(tier):
     return [
         SubCheck("reductions", check, strategy=lambda t: strat_case(t),
                  examples={"quick": 1800, "thorough": 100000}, shards={"quick": 8, "thorough": 16}),
+        SubCheck("long_streams", check, enumerate=enum_long, shards={"quick": 5, "thorough": 8}, budget_s={"quick": 250, "thorough": 1500}),
         SubCheck("reader_history", check_history, strategy=lambda t: strat_history(t),
                  examples={"quick": 600, "thorough": 40000}, shards={"quick": 4, "thorough": 16}),
     ]
